@@ -72,6 +72,9 @@ class Check(HCheck):
             Space(Cfg("domain"), lops, 5 if thorough else 4, roots=[(al.page(A),)], name="pages/long-siblings"),
             Space(Cfg("domain"), ops, d, roots=[al.R0, al.R1, al.R4], name="pages/domain"),
             Space(Cfg("subdomain", {Ab: "path2"}), ops, d - 1, roots=[R5], name="pages/subdomain+path2"),
+            # two corpora around clear / reopen with the check's own queries in between (whatever a
+            # pagination remembers on the object must not outlive clear()): every sequence, no merging
+            Space(Cfg("domain"), R.lifecycle_ops(), 5 if thorough else 4, roots=[al.R0], name="pages/lifecycle", dedup=False),
         ]
 
     def check_state(self, w, ctx):
